@@ -355,15 +355,20 @@ class FTPProcessorSession(BaseProcessorSession):
                     not fnmatch.fnmatchcase(file_entry.name, self._glob_pattern):
                 continue
 
+            # The name is one path segment, not a relative URL: '#', '?', '%'
+            # and ':' in it are part of the name.
+            name = urllib.parse.quote(
+                file_entry.name, safe='', errors='surrogateescape')
+
             if file_entry.type == 'dir':
-                linked_url = urljoin_safe(base_url, file_entry.name + '/')
+                linked_url = urljoin_safe(base_url, name + '/')
             elif file_entry.type in ('file', 'symlink', None):
                 if not self._processor.fetch_params.retr_symlinks and \
                         file_entry.type == 'symlink':
                     self._make_symlink(file_entry.name, file_entry.dest)
                     linked_url = None
                 else:
-                    linked_url = urljoin_safe(base_url, file_entry.name)
+                    linked_url = urljoin_safe(base_url, name)
             else:
                 linked_url = None
 
